@@ -223,7 +223,8 @@ def check_selection(ctx, g, index, res, exc):
         ctx.count(key)
         return
     pts, w = np.asarray(g.points), np.asarray(g.weights)
-    if kind in ("bool-scalar",) or kind.startswith("array-") or kind not in ("int", "slice", "slice-negstep", "boolmask", "intarray", "list") and not kind.startswith("np."):
+    admissible_kind = kind in ("int", "slice", "slice-negstep", "boolmask", "intarray", "list") or kind.startswith("np.")
+    if not admissible_kind:
         ctx.count("selection:inadmissible-index-kind:" + kind)
         return
     try:
